@@ -350,6 +350,7 @@ def run(ctx):
 
     # ---------------- R14.7 a division by an untrusted value is preceded by a test of that value
     _divisions(ctx, F, reach)
+    _data_arg_counts(ctx, F, reach)
 
     # ---------------- R14.4 no dead rejection
     ERR_ENUMS = ["cairo_lang_sierra::program_registry::ProgramRegistryError",
@@ -805,6 +806,96 @@ def _validator_calls(ctx, F, reach):
     ctx.ob("R14.6", "validator-calls", not unexplained, "%d call sites of %d validation routines on the untrusted path; none disappeared%s" % (
         sum(cur.values()), len(cur), " (%d renamed or moved)" % len(lost) if lost else "") if not unexplained else "%d validator call site(s) disappeared" % unexplained, "")
     ctx.floor("validator call sites on the untrusted path", sum(cur.values()), 20)
+
+
+def _fixes_length(F, f, pl, depth=0):
+    """True if `f` tests the length of its slice parameter `pl` (a slice pattern: PtrMetadata compared with a constant; or
+    `len()` of it - or of an iterator over it - in a comparison) on a switch one of whose edges starts a rejection, or hands
+    the slice whole to a workspace routine that does."""
+    from .guards import error_sink_blocks
+    errs = error_sink_blocks(f)
+
+    def rejects(bb):
+        for s0 in f.succ(bb):
+            seen, cur = set(), s0
+            for _ in range(4):
+                if cur in errs:
+                    return True
+                if cur in seen:
+                    break
+                seen.add(cur)
+                nx = f.succ(cur)
+                if len(nx) != 1:
+                    break
+                cur = nx[0]
+        return False
+
+    len_locals = set()
+    for i, j, st in f.stmts():
+        if st[0] == "a" and isinstance(st[1], int) and "PtrMetadata" in str(st[2][:2]):
+            ops = [x for x in st[2][1:] if isinstance(x, list)]
+            for o in ops:
+                l = op_local(o) if o and o[0] in ("c", "m") else (o[0] if o and isinstance(o[0], int) else None)
+                if l is not None and f.resolve_copy(l) == pl:
+                    len_locals.add(st[1])
+            if not ops and len(st[2]) > 2 and isinstance(st[2][2], int) and f.resolve_copy(st[2][2]) == pl:
+                len_locals.add(st[1])
+    for c in f.calls():
+        if c.name() == "len" and c.args:
+            l = op_local(c.args[0])
+            if l is not None and (f.resolve_copy(l) == pl or ("arg:%d" % pl) in op_prov(f, c.args[0], 10)):
+                d = place_local(c.dest)
+                if d is not None:
+                    len_locals.add(d)
+    for l in len_locals:
+        fl = f.flows_to(l)
+        # an *equality* test of the length (a rest pattern `[a, b, ..]` compiles to `>=` and does not fix it)
+        eq_locals = set()
+        for i, j, st in f.stmts():
+            if st[0] == "a" and isinstance(st[1], int) and st[2][0] == "bin" and st[2][1] in ("Eq", "Ne"):
+                if any(op_local(o) in fl for o in (st[2][2], st[2][3]) if op_local(o) is not None):
+                    eq_locals.add(st[1])
+        for bb, t in f.switches():
+            sl = op_local(t[1])
+            if sl is not None and f.resolve_copy(sl) in eq_locals and rejects(bb):
+                return True
+    if depth < 2:
+        for c in f.calls():
+            for k, a in enumerate(c.args):
+                l = op_local(a)
+                if l is not None and f.resolve_copy(l) == pl and c.path in F.fns:
+                    g = F.fns[c.path]
+                    if k + 1 <= g.argc and _fixes_length(F, g, k + 1, depth + 1):
+                        return True
+    return False
+
+
+def _data_arg_counts(ctx, F, reach):
+    """R14.8: a `Const<T, data..>` type is accepted only with exactly the data its inner type calls for.  The stages after
+    specialisation (extract_const_value, the const segment layout, const_as_immediate) walk *all* the data arguments and
+    trust their number (a struct const with one argument too many gives a reference wider than its type: `ReferenceValue`
+    asserts - seed C14-6).  So every routine of const_type that validates the data slice of one kind of inner type fixes the
+    length of that slice: a slice pattern, a length comparison that selects a rejection, or handing the slice whole to a
+    routine that does."""
+    CT = "cairo_lang_sierra::extensions::modules::const_type::"
+    n = 0
+    for p, f in sorted(F.fns.items()):
+        if not p.startswith(CT) or f.kind != "Fn" or "{closure" in p:
+            continue
+        if not f.local_ty(0).startswith("core::result::Result<(), cairo_lang_sierra::extensions::error::SpecializationError"):
+            continue
+        sl = [i for i in range(1, f.argc + 1) if f.local_ty(i).replace(" ", "") in (
+            "&[cairo_lang_sierra::program::GenericArg]",)]
+        if len(sl) != 1:
+            continue
+        n += 1
+        ctx.analysed(f)
+        ok = _fixes_length(F, f, sl[0])
+        ctx.ob("R14.8", "data-arg-count:" + last_seg(p), ok,
+               "%s fixes the number of data arguments" % last_seg(p) if ok else
+               "%s walks its data arguments without fixing their number: surplus arguments of a const type are accepted, and "
+               "the later stages lay out every one of them" % last_seg(p), f.where())
+    ctx.floor("const data validators (R14.8)", n, 4)
 
 
 def _controls(ctx, F, wrappers):
